@@ -11,7 +11,7 @@ import vlib, clilib
 
 PID = "C18"
 VALID = {"defines", "usesOwn", "usesOther", "plain", "empty"}
-FAULTS = {"undecodable", "dirnamed", "dangling", "unserialisable"}
+FAULTS = {"undecodable", "dirnamed", "dangling", "unserialisable", "faultDefines"}
 
 
 def content(kind, rnd):
@@ -37,6 +37,10 @@ def content(kind, rnd):
         # #5c5c5c with it; explicit white background): re-serialising the modified rule fails
         return (b".z{*zoom:1; color:#777777; background-color:#ffffff} .z2{*zoom:1; color:#5c5c5c; background-color:#ffffff} "
                 b".y{color:#000}\n")
+    if kind == "faultDefines":
+        # custom properties are collected, then serialisation of the modified rule fails (late fault)
+        return (b":root{--bg:#000000; --c:#777777; --t:#767676} .z{*zoom:1; color:#777777; background-color:#ffffff} "
+                b".z2{*zoom:1; color:#5c5c5c; background-color:#ffffff}\n")
     if kind == "cm":
         return b".old{color:#777777} .o2{color:#999999;background-color:#ffffff}\n"
     raise ValueError(kind)
@@ -44,7 +48,7 @@ def content(kind, rnd):
 
 def materialise(tree, root, rnd):
     """tree: kinds per slot -> {slot: relpath}; creates the files"""
-    stems = ["a", "m", "z", "B", "k9", "theme", "0x"]
+    stems = ["a", "m", "z", "B", "k9", "theme", "0x", "x.min", "v1.2", "lib.2024.min"]
     rnd.shuffle(stems)
     dirs = ["", "sub", "sub/deep", "other"]
     paths = {}
@@ -147,7 +151,7 @@ def main():
                 "distinct = distinct (tree, placement)")
     rep.add_model("MC_CliBatch(NF=3)", vlib.check_model("CliBatch", "MC_CliBatch.cfg"),
                   "all trees x all traversal orders x two runs: Isolation, SkipBad, NoCmInput, RerunStable")
-    for name in ("MC_CliBatch_regress_shared", "MC_CliBatch_regress_cm"):
+    for name in ("MC_CliBatch_regress_shared", "MC_CliBatch_regress_cm", "MC_CliBatch_regress_leak"):
         r = vlib.check_model("CliBatch", name + ".cfg")
         if r.ok or "is violated" not in (r.error + r.stdout):
             raise vlib.MachineryError(f"regression configuration {name} is expected to be rejected by TLC but was not")
@@ -158,6 +162,7 @@ def main():
     rep.extra["trees_enumerated_by_tlc"] = len(trees)
     n = 110 if t == "quick" else len(trees) * 2
     interesting = [tr for tr in trees if any(k in FAULTS or k == "cm" or k == "usesOther" for k in tr)]
+    interesting += [tr for tr in trees if "faultDefines" in tr and "usesOther" in tr] * 3
     chosen = [rnd.choice(interesting) if k % 4 else rnd.choice(trees) for k in range(n)] if t == "quick" else trees * 2
     jobs = [(tr, rnd.randrange(1 << 30), (k % 3, bool((k // 3) & 1), rnd.choice([None, None, "#000000", "white"]))) for k, tr in enumerate(chosen)]
     res = vlib.pool_map(one_tree, jobs, chunksize=2)
